@@ -72,7 +72,7 @@ SITES = [
     (P + "semantic/reporting.rs", "hash-iter", "label_module:names.iter", "nooutput", "", "", "lineage / debug reporting"),
     (P + "semantic/resolver/expr.rs", "hash-iter", "construct_tuple_from_module:names.iter +sorted", "inv:sort", "c11_perm_invariant_this_wildcard", "", ".sorted_by((order, name)) since 987d30b: a total order on the (distinct) names of one module; before, .sorted_by_key(order) kept the iteration order of an input sub-module and a direct column that share an order (was F10k)"),
     (P + "semantic/resolver/transforms.rs", "hash-iter", "apply_assign:e_e.difference +sorted", "inv:sort", "perm_invariant_sort", "", "columns left when two wildcards of one input cancel (`select !{!{a, b}}`): .difference(..).sorted() before they are pushed"),
-    (P + "semantic/resolver/functions.rs", "hash-iter", "apply_args_to_closure:named_args.into_keys", "inv:min", "c11_perm_invariant_apply_args_to_closure", "", ".into_keys().min(): the alphabetically first leftover argument is named (was F10)"),
+    (P + "semantic/resolver/functions.rs", "hash-iter", "apply_args_to_closure:named_args.into_iter", "inv:min_by_key", "perm_invariant_after_sort_by_key", "", ".into_iter().min_by(name): the entry (name, argument) with the alphabetically first name -- names are the keys of the map, hence distinct -- is reported, now with the argument's span (819c36b; was .into_keys().min(), was F10): the head of the entries sorted by key, c11_perm_invariant_apply_args_to_closure for the name alone"),
     (P + "semantic/resolver/functions.rs", "hash-iter", "resolve_function_args:other.for", "nothash", "", "", "`other` is a Vec here"),
     (P + "semantic/resolver/names.rs", "hash-iter", "ambiguous_error:idents.for +sorted", "inv:sort", "perm_invariant_sort", "", "chunks.sort() before joining"),
     (P + "semantic/resolver/names.rs", "hash-iter", "ambiguous_error:idents.iter +sorted", "inv:all", "perm_invariant_all", "", ".all(..)"),
